@@ -420,15 +420,34 @@ fn apply(sys: &Sys, ev: &Value) -> Map<String, Value> {
         }
         "subdirectories" => wrap(catch(|| fs.subdirectories(path, loc)), json!([]), strings_to_json),
         "write_archive" | "write_text_archive" => {
-            // the archive is built here; its serialisation is an observation, the helper must write exactly that
+            // The archive is built here; its serialisation is an observation, the helper must write exactly that.
+            // "prov": how the caller came by the archive - "built" (edited through the API), "loaded" (parsed from
+            // bytes, as read_archive / read_text_archive hand it out, unedited), "titled" (new, only a title set).
             let be = ev["fix"].as_str().unwrap_or("le") == "be";
+            let prov = ev["prov"].as_str().unwrap_or("built");
             let endian = if be { Endian::Big } else { Endian::Little };
             if op == "write_archive" {
-                let a = fixture_bin(endian);
+                let built = fixture_bin(endian);
+                let a = match prov {
+                    "loaded" => BinArchive::from_bytes(&built.serialize().expect("fixture"), endian).expect("fixture"),
+                    "titled" => BinArchive::new(endian),
+                    _ => built,
+                };
                 extra.insert("ser".into(), wrapc(catch(|| a.serialize()), |v| bytes_to_json(&v)));
                 wrap(catch(|| fs.write_archive(path, &a, loc)), json!([]), |_| json!([]))
             } else {
-                let a = fixture_text(if be { TextArchiveFormat::ShiftJIS } else { TextArchiveFormat::Unicode }, endian);
+                let f = if be { TextArchiveFormat::ShiftJIS } else { TextArchiveFormat::Unicode };
+                let built = fixture_text(f, endian);
+                let a = match prov {
+                    "loaded" => TextArchive::from_bytes(&built.serialize().expect("fixture"), f, endian).expect("fixture"),
+                    "titled" => {
+                        let mut t = TextArchive::new(f, endian);
+                        t.set_title("T".to_string());
+                        t
+                    }
+                    _ => built,
+                };
+                extra.insert("dirty".into(), json!(a.is_dirty()));
                 extra.insert("ser".into(), wrapc(catch(|| a.serialize()), |v| bytes_to_json(&v)));
                 wrap(catch(|| fs.write_text_archive(path, &a, loc)), json!([]), |_| json!([]))
             }
@@ -1042,8 +1061,9 @@ fn record_mode(out_path: &str, runs: usize, len: usize, from: usize) {
                 let m = match rng.below(10) {
                     0 | 1 => mk_event("create_dir", &p, rng.chance(1, 3), loc),
                     2 => {
-                        let mut e = mk_event("write_archive", &p, false, loc);
+                        let mut e = mk_event(if rng.chance(1, 2) { "write_archive" } else { "write_text_archive" }, &p, false, loc);
                         e["fix"] = json!("le");
+                        e["prov"] = json!(*rng.pick(&["built", "loaded", "titled"]));
                         e
                     }
                     _ => {
@@ -1077,6 +1097,7 @@ fn record_mode(out_path: &str, runs: usize, len: usize, from: usize) {
                 } else {
                     let mut e = mk_event(if rng.chance(1, 2) { "write_archive" } else { "write_text_archive" }, &p, false, loc);
                     e["fix"] = json!(if rng.chance(1, 2) { "be" } else { "le" });
+                    e["prov"] = json!(*rng.pick(&["built", "loaded", "titled"]));
                     pool.paths.push(p);
                     e
                 }
